@@ -32,9 +32,11 @@ class FakeDSSP:
         self.fault = spec.get('fault')      # [kind, arg] or None
         self.fault_call = spec.get('fault_call', 0)
         self.ncalls = 0
+        self.consulted = 0          # any call of run(): version query or structure call
 
     def run(self, args, **kwargs):
         text_mode = kwargs.get('universal_newlines') or kwargs.get('text')
+        self.consulted += 1
         stats = self.child.stats
         if self.fault and self.fault[0] == 'missing':
             stats.faults['peer:missing'] += 1
